@@ -103,3 +103,17 @@ Fixpoint sprint (v : val) : bytes :=
   | VPtr None => bs "<nil>"
   | VPtr (Some x) => x26 :: sprint x
   end.
+
+(* fmt prints a non-nil pointer below the top level as an address: such values have no
+   deterministic string form and are excluded from printed observations *)
+Fixpoint has_live_ptr (v : val) : bool :=
+  match v with
+  | VPtr (Some _) => true
+  | VList l | VArr l => existsb has_live_ptr l
+  | VMap m => existsb (fun kv => has_live_ptr (snd kv)) m
+  | VMapI m => existsb (fun kv => has_live_ptr (snd kv)) m
+  | VStruct fs => existsb (fun f => has_live_ptr (snd f)) fs
+  | _ => false
+  end.
+Definition printable_val (v : val) : bool :=
+  match v with VPtr (Some x) => negb (has_live_ptr x) | _ => negb (has_live_ptr v) end.
